@@ -253,6 +253,8 @@ func checkC08(c *Ctx) {
 	c.Rule("R8.1", "reset completeness: every mutable field of a pooled struct is neutralised before Put or reassigned after Get", 7)
 	c.Rule("R8.2", "every Pool.Get/Put site is accounted for: Put of a function's own parameter makes it a release function, any other Put is a release point in place", 9)
 	c.Rule("R8.3", "no use of an object, and no escaping reference into its storage, after it was released", 8)
+	c.Rule("R8.10", "no Core keeps the caller's field slice: what Write (or With) records is a copy (the caller may reuse its slice for the next call, which would rewrite what was already recorded)", 2)
+	c8NoRetainedFields(c, "R8.10")
 	c.Rule("R8.4", "a buffer is released at most once: field cleared (or holder recycled) after Free; EncodeEntry's buffer freed exactly once after the write", 3)
 	c.Rule("R8.5", "pooled-buffer fields are only assigned nil or a buffer fresh from the pool (exclusive ownership)", 2)
 
@@ -841,5 +843,67 @@ func c8CloneOwnership(c *Ctx, rule string) {
 	}
 	if n == 0 {
 		c.Bad(rule, "zapcore.jsonEncoder", "clone-owns-its-buffers", jn.Obj().Pos(), "no clone function found")
+	}
+}
+
+// c8NoRetainedFields: by path exploration of Write and With of every Core implementation (helpers inline): the fields
+// parameter - itself or re-sliced - is never stored into memory (a struct field, a slice element, a captured
+// variable). Passing it on to an inner core or encoder, ranging over it, copying out of it and appending its elements
+// to another slice are all fine.
+func c8NoRetainedFields(c *Ctx, rule string) {
+	iface := c.coreIface()
+	if !c.Anchor(rule, "zapcore.Core", iface != nil) {
+		return
+	}
+	n := 0
+	for _, t := range c.Implementers(iface) {
+		for _, m := range []string{"Write", "With"} {
+			fn := c.Method(t.Obj().Pkg().Path(), t.Obj().Name(), m)
+			if fn == nil || RecvNamed(fn) == nil || RecvNamed(fn).Obj() != t.Obj() || len(fn.Params) < 2 {
+				continue
+			}
+			fields := fn.Params[len(fn.Params)-1]
+			if _, isSl := types.Unalias(fields.Type()).Underlying().(*types.Slice); !isSl {
+				continue
+			}
+			isFields := func(st *ConcState, v ssa.Value) bool {
+				for k := 0; k < 16; k++ {
+					if v == ssa.Value(fields) {
+						return true
+					}
+					if sl, ok := v.(*ssa.Slice); ok {
+						v = sl.X
+						continue
+					}
+					nx := st.Step(v)
+					if nx == nil {
+						return false
+					}
+					v = nx
+				}
+				return false
+			}
+			var bad []string
+			_, trunc := ConcPaths(fn, ConcCfg{
+				MaxIter: 1,
+				Event: func(in ssa.Instruction, st *ConcState) string {
+					sto, ok := in.(*ssa.Store)
+					if !ok || !isFields(st, sto.Val) {
+						return ""
+					}
+					// a plain local variable is no memory anybody else sees
+					if a, isA := sto.Addr.(*ssa.Alloc); isA && !allocEscapes(a) {
+						return ""
+					}
+					bad = append(bad, st.Desc(sto.Addr)+" = "+st.Desc(sto.Val)+" at "+c.Pos(sto.Pos()))
+					return ""
+				},
+			})
+			n++
+			c.Check(!trunc && len(bad) == 0, rule, fn.String(), "fields-not-retained", fn.Pos(), "on no path is the caller's field slice (or a re-slice of it) stored into memory: %v", uniqSorted(bad))
+		}
+	}
+	if n < 8 {
+		c.Bad(rule, "zapcore.Core implementations", "count", token.NoPos, "expected Write and With of at least 4 Core implementations, examined %d methods", n)
 	}
 }
